@@ -6,7 +6,7 @@ import sys, os, json, subprocess, tempfile, re, shutil
 args = [a for a in sys.argv[1:] if not a.startswith("--")]
 real = "--apply" in sys.argv
 sid, checks = args[0], args[1:]
-tier = "quick"
+tier = "thorough" if "--thorough" in sys.argv else "quick"
 patch = "/verif/seeded/%s/patch.diff" % sid
 files = re.findall(r"^\+\+\+ b/(\S+)", open(patch).read(), re.M)
 res = {}
